@@ -118,23 +118,30 @@ def matchTrad (cs : List Char) : Option Groups :=
   let (s, r) := optGroupLast isS (skipWs r)
   if (skipWs r).isEmpty then some { d := d, h := h, m := m, s := s } else none
 
+/-- the part `(?:NUMH)?(?:NUMM)?(?:NUMS)?\s*` behind the `T` -/
+def isoTime (y mo d : Option Num) (r : List Char) : Option Groups :=
+  let (h, r) := optGroup false (· == 'H') r
+  let (m, r) := optGroup false (· == 'M') r
+  let (s, r) := optGroup false (· == 'S') r
+  if (skipWs r).isEmpty then some { y := y, mo := mo, d := d, h := h, m := m, s := s } else none
+
+/-- the part behind the `P` -/
+def isoAfterP (r : List Char) : Option Groups :=
+  let (y, r) := optGroup false (· == 'Y') r
+  let (mo, r) := optGroup false (· == 'M') r
+  let (d, r) := optGroup false (· == 'D') r
+  match r with
+  | c :: r' =>
+    if c == 'T' then isoTime y mo d r'
+    else if (skipWs (c :: r')).isEmpty then some { y := y, mo := mo, d := d, h := none, m := none, s := none }
+    else none
+  | [] => some { y := y, mo := mo, d := d, h := none, m := none, s := none }
+
 /-- `_RE_ISO_DURATION.fullmatch` -/
 def matchIso (cs : List Char) : Option Groups :=
   match skipWs cs with
-  | 'P' :: r =>
-    let (y, r) := optGroup false (· == 'Y') r
-    let (mo, r) := optGroup false (· == 'M') r
-    let (d, r) := optGroup false (· == 'D') r
-    match r with
-    | 'T' :: r =>
-      let (h, r) := optGroup false (· == 'H') r
-      let (m, r) := optGroup false (· == 'M') r
-      let (s, r) := optGroup false (· == 'S') r
-      if (skipWs r).isEmpty then some { y := y, mo := mo, d := d, h := h, m := m, s := s } else none
-    | r =>
-      if (skipWs r).isEmpty then some { y := y, mo := mo, d := d, h := none, m := none, s := none }
-      else none
-  | _ => none
+  | c :: r => if c == 'P' then isoAfterP r else none
+  | [] => none
 
 /-! ### evaluation of the groups (the `for` loop of `_convert`) -/
 
@@ -187,15 +194,17 @@ inductive PErr where
   | type                -- TypeError: not None / int / float / str
   deriving DecidableEq, Repr, Inhabited
 
+/-- the result of `convert` as a result of `time_period` -/
+def periodOfConvert : Except Err Rat → Except PErr (Option Rat)
+  | .ok q => .ok (some q)
+  | .error e => .error (.value e)
+
 /-- `time_period`: `none` stays `none`, numbers become floats with negatives replaced by 0,
     strings are converted -/
 def timePeriod : Val → Except PErr (Option Rat)
   | .atom .none => .ok none
   | .atom (.num q _) => .ok (some (if q < 0 then 0 else q))
-  | .atom (.str s) =>
-    match convert s.toList with
-    | .ok q => .ok (some q)
-    | .error e => .error (.value e)
+  | .atom (.str s) => periodOfConvert (convert s.toList)
   | _ => .error .type
 
 /-! ### timestr -/
